@@ -466,11 +466,12 @@ func emitClientCase(w *shardWriter, res *pairResult, cr *clientRun) {
 			if err := parts.Unmarshal(b.data); err != nil {
 				break // the stream processor returns the error here
 			}
-			hasLead := false
+			hasLead, hasTracks := false, false
 			var ps []string
 			for _, pt := range parts {
 				var pts []string
 				for _, tr := range pt.Tracks {
+					hasTracks = true
 					if tr.ID == leadID {
 						hasLead = true
 					}
@@ -482,9 +483,11 @@ func emitClientCase(w *shardWriter, res *pairResult, cr *clientRun) {
 				}
 				ps = append(ps, coqfmt.List(pts))
 			}
-			if !hasLead {
+			if hasTracks && !hasLead {
 				break // "could not find data of leading track": nothing of this body is delivered
 			}
+			// a body without any track is handed to the model as it is: Model/E2E.v client_view decides
+			// whether the stream processor skips it (fixes d590576 + c9db2ec)
 			segs = append(segs, fmt.Sprintf("Build_segment %s %s", optZ(b.hasDate, b.date), coqfmt.List(ps)))
 		}
 		streams = append(streams, fmt.Sprintf("(Build_stream %s\n [%s])", coqfmt.List(its), strings.Join(segs, ";\n  ")))
